@@ -1,6 +1,6 @@
 (* C05 — each batch is flushed once, highest priority first; every item is answered.
-   Statements only; proofs in proofs/MachineC05.v (function level), proofs/MachineTrace.v and
-   proofs/MachineC05T.v (trace level).
+   Statements only; proofs in proofs/MachineC05.v (function level), proofs/MachineTrace.v,
+   proofs/MachineC05T.v (trace level), proofs/MachineC05P.v (priority), proofs/MachineC05O.v (outcomes).
 
    PROVED, function level (every scheduler state, priority assignment and oracle = set iteration
    order): _select_batch_to_flush picks a scheduled, pending, non-empty batch of maximal priority
@@ -28,15 +28,58 @@
      batch has exactly one EvItemDone in the whole trace, among the completions of that flush),
      C05_item_done_by_its_flush (every EvItemDone h lies in a flush whose item list contains h),
      C05_brackets_at_most_once (EvBefore k i and EvAfter k i occur equally often and at most once);
+   - C05_scheduler_flush_is_greatest_priority_step / _run (proofs/MachineC05P.v): a transition that emits
+     EvBefore k i starts from a state in which batch (k, i) is scheduled, pending, non-empty and of a
+     priority not strictly below that of any other scheduled pending non-empty batch;
    - step-level invariants C05_blocks_invariant_step, C05_batch_items_invariant_step.
-   No generic statement had to be refuted.
+   No generic statement of this group had to be refuted.
 
-   NOT proved here: that the outcome carried by EvItemDone is the one the flush body set / the one
-   stored in the heap afterwards (function level only: MachineC05T.fx, by the definition of
-   flush_body), the greatest-priority choice as a trace property (the trace does not show the set of
-   pending batches; function level only, C05_select_greatest_priority), and a purely trace-level
-   form of T2 for run_case (T2 is stated on the configurations of [run]). *)
-From Asynq Require Import Machine proofs.MachineC05 proofs.MachineTrace proofs.MachineC05T proofs.MachineC05P.
+   PROVED, WHICH outcome a completion carries (proofs/MachineC05O.v), same generality (every program,
+   record of knobs, history, fuel):
+   - O1, stable outcome: no transition touches a batch-item entry that has an outcome
+     (C05_item_outcome_never_overwritten_step / _run), and no transition changes the outcome of ANY
+     computed future - task, item, lazy or constant future (C05_computed_outcome_never_changes_step /
+     _run); every EvItemDone h o in the trace is recorded in
+     the heap: the entry of h is mkFut (Some o) (KItem ...) in the state reached by the emitting
+     transition (C05_announced_outcome_is_stored_step), after any number of further transitions
+     (C05_announced_outcome_stays_stored_run) and in the final state of run_case
+     (C05_announced_outcome_is_final_outcome: outcome_of h = o);
+   - O2, which outcome.  Vocabulary (C05_raise_position, C05_reached_is_position_before_raise,
+     C05_reached_when_no_raise, C05_expected_outcome_cases): the body of a batch of n items raises iff the
+     scripted position k is in 0..n, before item number k (k = n: after the last item);
+     [reached ra items h] = h occurs at a position before the raise position (anywhere when the body does
+     not raise); [flush_err ra items] = the error raised, if any;
+     expected_outcome a rch ferr = Ok v / Err e when rch = true and a = ASet v / AErr e; otherwise Err e'
+     when ferr = Some e' (the flush error) and Err E_NOTSET when ferr = None (the "was not set"
+     AssertionError).
+     Function level, every state (C05_flush_outcomes_function_level, and with the heap invariant BI
+     C05_flush_expected_outcome_function_level): every EvItemDone h o emitted by flush_batch of a
+     pending batch is for a member of the batch whose entry had no outcome, the entry afterwards holds
+     exactly o, and o is the expected outcome of h's scripted action.  Step level, every configuration
+     (C05_item_done_expected_step): a completion event gained by a transition is the work of one flush of
+     a pending batch of the source state containing h, whose EvFlush is among the gained events, with
+     the expected outcome; run level with the index of the emitting step (C05_item_done_expected_run);
+     invariant C05_outcome_invariant_step.  Trace level, about snd (run_case P fuel ps) and the final
+     heap: C05_flush_block_outcomes (every EvFlush k i items is followed by completions dones with
+     oserved: served, and each completion is recorded in the final heap as an item of batch (k, i) with
+     the expected outcome), C05_item_completed_once_with_expected_outcome (an item of a flushed batch
+     has exactly one EvItemDone in the whole trace, in that block, carrying the expected outcome, which
+     is its final outcome), C05_item_done_carries_expected_outcome (the same read from any EvItemDone
+     of the trace); C05_flush_block_outcomes_run is the block statement for one run from any
+     configuration satisfying the invariant.  Examples C05_outcome_example_no_raise / _raise_at_1 /
+     _raise_at_end / _sync_flush / _instance (value, error, flush error, not-set; scheduler flush and
+     item.value() flush).
+   REFUTED (C05_action_alone_is_false): "an item whose scripted action is ASet v completes with Ok v" -
+     false when the body raises before reaching the item; the position relative to the raise is needed.
+
+   NOT proved here: a purely trace-level form of T2 for run_case (T2 is stated on the configurations of
+   [run]); cancellation of batches (the machine has no cancel transition: b_done is only set by
+   flush_batch, so there is no via-cancel outcome to state); the scripted action of an item is visible
+   in the heap entry (KItem kind idx key a), not in the trace, so the O2 trace theorems speak about
+   the trace together with the final heap (final_state P fuel ps = snd (run_history P fuel ps (st0 P)),
+   whose reversed trace is snd (run_case P fuel ps)). *)
+From Asynq Require Import Machine proofs.MachineC05 proofs.MachineTrace proofs.MachineC05T proofs.MachineC05P
+  proofs.MachineC05O.
 
 Theorem C05_select_greatest_priority : forall P s k s',
   select P s = (Some k, s') ->
@@ -237,3 +280,255 @@ Theorem C05_after_fires_when_flush_raises :
    EvStep [0] 1 (Err 77); EvDone [0] (Err 77); EvSched 0 0 None].
 Proof. exact c05_demo_raise. Qed.
 Print Assumptions C05_after_fires_when_flush_raises.
+
+(* ------------------------------------------------------------------ outcomes (proofs/MachineC05O.v) *)
+(* O2 vocabulary.  raise_pos ra n: where the flush body of a batch of n items raises (before item number p) *)
+Theorem C05_raise_position : forall k e n,
+  raise_pos (Some (k, e)) n = if (0 <=? k) && (k <=? Z.of_nat n) then Some (Z.to_nat k, e) else None.
+Proof. exact raise_pos_spec. Qed.
+Print Assumptions C05_raise_position.
+
+Theorem C05_flush_error : forall ra items,
+  flush_err ra items = match raise_pos ra (length items) with Some (_, e) => Some e | None => None end.
+Proof. exact flush_err_spec. Qed.
+Print Assumptions C05_flush_error.
+
+(* when the body raises before item number p, the reached items are those at a position j < p *)
+Theorem C05_reached_is_position_before_raise : forall ra items h p e,
+  raise_pos ra (length items) = Some (p, e) ->
+  (reached ra items h = true <-> exists j, (j < p)%nat /\ nth_error items j = Some h).
+Proof. exact reached_position. Qed.
+Print Assumptions C05_reached_is_position_before_raise.
+
+Theorem C05_reached_when_no_raise : forall ra items h,
+  raise_pos ra (length items) = None -> (reached ra items h = true <-> In h items).
+Proof. exact reached_no_raise. Qed.
+Print Assumptions C05_reached_when_no_raise.
+
+Theorem C05_expected_outcome_cases : forall v e e',
+  (forall ferr, expected_outcome (ASet v) true ferr = Ok v) /\
+  (forall ferr, expected_outcome (AErr e) true ferr = Err e) /\
+  (forall ferr, expected_outcome ASkip true ferr = fill_of ferr) /\
+  (forall a ferr, expected_outcome a false ferr = fill_of ferr) /\
+  fill_of (Some e') = Err e' /\ fill_of None = Err E_NOTSET.
+Proof. exact expected_outcome_cases. Qed.
+Print Assumptions C05_expected_outcome_cases.
+
+(* O1: no transition of the machine touches a batch-item entry that has an outcome *)
+Theorem C05_item_outcome_never_overwritten_step : forall P c, dom (c_st c) ->
+  forall h f, get h (c_st c) = Some f -> is_itemk f -> f_out f <> None -> get h (c_st (step P c)) = Some f.
+Proof. exact stab_step. Qed.
+Print Assumptions C05_item_outcome_never_overwritten_step.
+
+Theorem C05_item_outcome_never_overwritten_run : forall P n c, Inv (c_st c) ->
+  forall h f, get h (c_st c) = Some f -> is_itemk f -> f_out f <> None -> get h (c_st (run P n c)) = Some f.
+Proof. exact stab_run. Qed.
+Print Assumptions C05_item_outcome_never_overwritten_run.
+
+(* every future: a transition never changes the outcome of a computed future (its kind field may change:
+   a task's bookkeeping is updated) *)
+Theorem C05_computed_outcome_never_changes_step : forall P c, dom (c_st c) ->
+  forall h f, get h (c_st c) = Some f -> f_out f <> None ->
+  exists f', get h (c_st (step P c)) = Some f' /\ f_out f' = f_out f.
+Proof. exact pres_step. Qed.
+Print Assumptions C05_computed_outcome_never_changes_step.
+
+Theorem C05_computed_outcome_never_changes_run : forall P n c h,
+  Inv (c_st c) -> computed h (c_st c) = true ->
+  computed h (c_st (run P n c)) = true /\ outcome_of h (c_st (run P n c)) = outcome_of h (c_st c).
+Proof. exact run_outcome_never_changes. Qed.
+Print Assumptions C05_computed_outcome_never_changes_run.
+
+(* [OutInv s] (proofs/MachineC05O.v) unfolds to:  forall h o, In (EvItemDone h o) (trace s) ->
+   exists kind idx key a, get h s = Some (mkFut (Some o) (KItem kind idx key a)) *)
+Theorem C05_announced_outcome_is_stored_step : forall P c,
+  dom (c_st c) -> BI (c_st c) -> OutInv (c_st c) -> OutInv (c_st (step P c)).
+Proof. exact OutInv_step. Qed.
+Print Assumptions C05_announced_outcome_is_stored_step.
+
+(* [OInv P s] = Inv s /\ OutInv s /\ gblocksR (oserved P s) (trace s); it holds for st0 P and is preserved by
+   every transition (C05_outcome_invariant_step below).  The outcome announced by a completion event after
+   n transitions is the outcome of the item after n + m transitions, for every m *)
+Theorem C05_announced_outcome_stays_stored_run : forall P n m c h o,
+  OInv P (c_st c) -> In (EvItemDone h o) (trace (c_st (run P n c))) ->
+  (exists kind idx key a, get h (c_st (run P (n + m) c)) = Some (mkFut (Some o) (KItem kind idx key a))) /\
+  computed h (c_st (run P (n + m) c)) = true /\ outcome_of h (c_st (run P (n + m) c)) = o.
+Proof. exact run_outcome_stable. Qed.
+Print Assumptions C05_announced_outcome_stays_stored_run.
+
+(* final_state P fuel ps = snd (run_history P fuel ps (st0 P)) *)
+Theorem C05_final_state_trace : forall P fuel ps,
+  snd (run_case P fuel ps) = rev (trace (final_state P fuel ps)).
+Proof. exact run_case_trace. Qed.
+Print Assumptions C05_final_state_trace.
+
+Theorem C05_announced_outcome_is_final_outcome : forall P fuel ps h o,
+  In (EvItemDone h o) (snd (run_case P fuel ps)) ->
+  (exists kind idx key a, get h (final_state P fuel ps) = Some (mkFut (Some o) (KItem kind idx key a))) /\
+  computed h (final_state P fuel ps) = true /\ outcome_of h (final_state P fuel ps) = o.
+Proof. exact run_case_outcome_stored. Qed.
+Print Assumptions C05_announced_outcome_is_final_outcome.
+
+(* O2, function level, EVERY state s and pending batch k (no invariant needed): the EvFlush is emitted,
+   entries with an outcome are untouched, and every completion event is for a member of the batch whose
+   entry had no outcome, stores exactly the announced outcome, which is what the member's scripted
+   action sets (act_of h s) if the body reaches it, else the flush error / not-set outcome *)
+Theorem C05_flush_outcomes_function_level : forall P k s evs,
+  b_done (get_batch k s) = false ->
+  trace (flush_batch P k s) = evs ++ trace s ->
+  let items := b_items (get_batch k s) in
+  let ra := ks_raise (kspec_of P (fst k)) in
+  In (EvFlush (fst k) (snd k) items) evs /\
+  (forall h f, get h s = Some f -> f_out f <> None -> get h (flush_batch P k s) = Some f) /\
+  (forall h o, In (EvItemDone h o) evs ->
+     In h items /\
+     exists f, get h s = Some f /\ f_out f = None /\
+               get h (flush_batch P k s) = Some (mkFut (Some o) (f_kind f)) /\
+               o = match (if reached ra items h then act_of h s else None) with
+                   | Some o' => o' | None => fill_of (flush_err ra items) end).
+Proof. exact flush_batch_events. Qed.
+Print Assumptions C05_flush_outcomes_function_level.
+
+(* with the heap invariant BI: the expected outcome of the scripted action a recorded in the item entry *)
+Theorem C05_flush_expected_outcome_function_level : forall P k s evs h o,
+  BI s -> b_done (get_batch k s) = false ->
+  trace (flush_batch P k s) = evs ++ trace s -> In (EvItemDone h o) evs ->
+  let items := b_items (get_batch k s) in
+  let ra := ks_raise (kspec_of P (fst k)) in
+  In h items /\
+  exists key a, get h s = Some (mkFut None (KItem (fst k) (snd k) key a)) /\
+                get h (flush_batch P k s) = Some (mkFut (Some o) (KItem (fst k) (snd k) key a)) /\
+                o = expected_outcome a (reached ra items h) (flush_err ra items).
+Proof. exact flush_batch_item_done. Qed.
+Print Assumptions C05_flush_expected_outcome_function_level.
+
+(* O2, step level, every configuration whose heap satisfies BI: a completion event gained by one transition
+   is the work of one flush of a pending batch k of the source state that contains h *)
+Theorem C05_item_done_expected_step : forall P c evs h o,
+  BI (c_st c) ->
+  trace (c_st (step P c)) = evs ++ trace (c_st c) -> In (EvItemDone h o) evs ->
+  exists k key a,
+    let items := b_items (get_batch k (c_st c)) in
+    let ra := ks_raise (kspec_of P (fst k)) in
+    b_done (get_batch k (c_st c)) = false /\ In h items /\
+    In (EvFlush (fst k) (snd k) items) evs /\
+    get h (c_st c) = Some (mkFut None (KItem (fst k) (snd k) key a)) /\
+    get h (c_st (step P c)) = Some (mkFut (Some o) (KItem (fst k) (snd k) key a)) /\
+    o = expected_outcome a (reached ra items h) (flush_err ra items).
+Proof. exact step_item_done. Qed.
+Print Assumptions C05_item_done_expected_step.
+
+(* run level: [item_done_by P s s' evs h o] is the conclusion of the previous theorem with s, s' for the
+   source and target states *)
+Theorem C05_item_done_expected_run : forall P n c0 h o,
+  OInv P (c_st c0) -> In (EvItemDone h o) (trace (c_st (run P n c0))) ->
+  In (EvItemDone h o) (trace (c_st c0)) \/
+  exists k evs, (k < n)%nat /\
+    trace (c_st (run P (S k) c0)) = evs ++ trace (c_st (run P k c0)) /\ In (EvItemDone h o) evs /\
+    item_done_by P (c_st (run P k c0)) (c_st (run P (S k) c0)) evs h o.
+Proof. exact run_item_done_origin. Qed.
+Print Assumptions C05_item_done_expected_run.
+
+Theorem C05_outcome_invariant_initial : forall P, OInv P (st0 P).
+Proof. exact OInv_st0. Qed.
+Print Assumptions C05_outcome_invariant_initial.
+
+Theorem C05_outcome_invariant_step : forall P c, OInv P (c_st c) -> OInv P (c_st (step P c)).
+Proof. exact OInv_step. Qed.
+Print Assumptions C05_outcome_invariant_step.
+
+(* O2, trace level.  [oserved P s kind idx items dones] (proofs/MachineC05O.v) unfolds to
+     served items dones /\
+     forall h o, In (EvItemDone h o) dones ->
+       exists key a, get h s = Some (mkFut (Some o) (KItem kind idx key a)) /\
+         o = expected_outcome a (reached (ks_raise (kspec_of P kind)) items h)
+                                (flush_err (ks_raise (kspec_of P kind)) items) *)
+Theorem C05_flush_block_outcomes : forall P fuel ps l1 l2 kind idx items,
+  snd (run_case P fuel ps) = l1 ++ EvFlush kind idx items :: l2 ->
+  exists dones l3, l2 = dones ++ l3 /\ oserved P (final_state P fuel ps) kind idx items dones.
+Proof. exact run_case_flush_outcomes. Qed.
+Print Assumptions C05_flush_block_outcomes.
+
+Theorem C05_flush_block_outcomes_run : forall P n c l1 l2 kind idx items,
+  OInv P (c_st c) ->
+  rev (trace (c_st (run P n c))) = l1 ++ EvFlush kind idx items :: l2 ->
+  exists dones l3, l2 = dones ++ l3 /\ oserved P (c_st (run P n c)) kind idx items dones.
+Proof. exact run_flush_outcomes. Qed.
+Print Assumptions C05_flush_block_outcomes_run.
+
+(* the clause, item by item: exactly once, by that flush, with the expected outcome, which is its final one *)
+Theorem C05_item_completed_once_with_expected_outcome : forall P fuel ps l1 l2 kind idx items h,
+  snd (run_case P fuel ps) = l1 ++ EvFlush kind idx items :: l2 -> In h items ->
+  exists key a,
+    let ra := ks_raise (kspec_of P kind) in
+    let o := expected_outcome a (reached ra items h) (flush_err ra items) in
+    get h (final_state P fuel ps) = Some (mkFut (Some o) (KItem kind idx key a)) /\
+    cnt h (snd (run_case P fuel ps)) = 1%nat /\
+    exists dones l3, l2 = dones ++ l3 /\ served items dones /\ In (EvItemDone h o) dones.
+Proof. exact run_case_item_outcome. Qed.
+Print Assumptions C05_item_completed_once_with_expected_outcome.
+
+(* read from the completion event *)
+Theorem C05_item_done_carries_expected_outcome : forall P fuel ps l1 l2 h o,
+  snd (run_case P fuel ps) = l1 ++ EvItemDone h o :: l2 ->
+  exists kind idx items l0 pre key a,
+    l1 = l0 ++ EvFlush kind idx items :: pre /\ In h items /\ Forall (done_in items) pre /\
+    get h (final_state P fuel ps) = Some (mkFut (Some o) (KItem kind idx key a)) /\
+    o = expected_outcome a (reached (ks_raise (kspec_of P kind)) items h)
+                           (flush_err (ks_raise (kspec_of P kind)) items).
+Proof. exact run_case_item_done_expected. Qed.
+Print Assumptions C05_item_done_carries_expected_outcome.
+
+(* non-vacuity: one batch of three items (ASet 5, AErr 9, ASkip).  The body does not raise *)
+Theorem C05_outcome_example_no_raise :
+  snd (run_case (c05o_P None) 100%nat [c05o_demo3]) =
+  [EvStep [0] 0 (Ok VNone); EvBefore 0 0; EvFlush 0 0 [[1]; [2]; [3]];
+   EvItemDone [1] (Ok (VInt 5)); EvItemDone [2] (Err 9); EvItemDone [3] (Err E_NOTSET); EvAfter 0 0;
+   EvStep [0] 1 (Err 9); EvDone [0] (Err 9); EvSched 0 0 None].
+Proof. exact c05o_demo_no_raise. Qed.
+Print Assumptions C05_outcome_example_no_raise.
+
+(* the body raises 77 before item number 1 *)
+Theorem C05_outcome_example_raise_at_1 :
+  snd (run_case (c05o_P (Some (1, 77))) 100%nat [c05o_demo3]) =
+  [EvStep [0] 0 (Ok VNone); EvBefore 0 0; EvFlush 0 0 [[1]; [2]; [3]];
+   EvItemDone [1] (Ok (VInt 5)); EvItemDone [2] (Err 77); EvItemDone [3] (Err 77); EvAfter 0 0;
+   EvStep [0] 1 (Err 77); EvDone [0] (Err 77); EvSched 0 0 None].
+Proof. exact c05o_demo_raise_at_1. Qed.
+Print Assumptions C05_outcome_example_raise_at_1.
+
+(* the body raises 77 after the last item *)
+Theorem C05_outcome_example_raise_at_end :
+  snd (run_case (c05o_P (Some (3, 77))) 100%nat [c05o_demo3]) =
+  [EvStep [0] 0 (Ok VNone); EvBefore 0 0; EvFlush 0 0 [[1]; [2]; [3]];
+   EvItemDone [1] (Ok (VInt 5)); EvItemDone [2] (Err 9); EvItemDone [3] (Err 77); EvAfter 0 0;
+   EvStep [0] 1 (Err 9); EvDone [0] (Err 9); EvSched 0 0 None].
+Proof. exact c05o_demo_raise_at_end. Qed.
+Print Assumptions C05_outcome_example_raise_at_end.
+
+(* a flush forced by item.value() *)
+Theorem C05_outcome_example_sync_flush :
+  snd (run_case (c05o_P None) 100%nat [c05o_demo_sync]) =
+  [EvStep [0] 0 (Ok VNone); EvFlush 0 0 [[1]]; EvItemDone [1] (Err E_NOTSET); EvGot [0] (Err E_NOTSET);
+   EvDone [0] (Err E_NOTSET); EvSched 0 0 None].
+Proof. exact c05o_demo_sync_flush. Qed.
+Print Assumptions C05_outcome_example_sync_flush.
+
+(* the hypotheses of C05_item_completed_once_with_expected_outcome are satisfiable *)
+Theorem C05_outcome_example_instance :
+  let P := c05o_P (Some (1, 77)) in
+  snd (run_case P 100%nat [c05o_demo3]) =
+    [EvStep [0] 0 (Ok VNone); EvBefore 0 0] ++ EvFlush 0 0 [[1]; [2]; [3]] ::
+    [EvItemDone [1] (Ok (VInt 5)); EvItemDone [2] (Err 77); EvItemDone [3] (Err 77); EvAfter 0 0;
+     EvStep [0] 1 (Err 77); EvDone [0] (Err 77); EvSched 0 0 None] /\
+  In [2] [[1]; [2]; [3]] /\
+  get [2] (final_state P 100%nat [c05o_demo3]) = Some (mkFut (Some (Err 77)) (KItem 0 0 2 (AErr 9))).
+Proof. exact c05o_demo_instance. Qed.
+Print Assumptions C05_outcome_example_instance.
+
+(* REFUTED: [action_alone_statement] =  forall P fuel ps h o kind idx key v,
+     In (EvItemDone h o) (snd (run_case P fuel ps)) ->
+     get h (final_state P fuel ps) = Some (mkFut (Some o) (KItem kind idx key (ASet v))) -> o = Ok v *)
+Theorem C05_action_alone_is_false : ~ action_alone_statement.
+Proof. exact action_alone_is_false. Qed.
+Print Assumptions C05_action_alone_is_false.
